@@ -130,6 +130,7 @@ typedef struct {
     int      early_send;     /* the honest client sends one early-data record right after its ClientHello */
     int      tickets;        /* load session ticket keys on server, client asks */
     int      pmtu;           /* DTLS: 0 default */
+    int      bogus_psk;      /* TLS 1.3 certificate modes: the client additionally offers an external PSK the server does not know */
     int      bad_server_cert;/* client CA list does not contain server's issuer */
     int      no_cert_cb;     /* register no cert callback (default: strict callback returning alert) */
     int      ems_off;        /* disable extended master secret on client */
